@@ -541,6 +541,13 @@ func (ev *Eval) floatBuiltin(name string, t *wgen.Type, sc *wgen.Type, args []Va
 			if !s.Ind && math.Abs(v1-v2) > 4*ulp32(float32(v1)) {
 				s.Ind = true
 			}
+			// x*(1-a) + y*a evaluated in f32 carries the rounding of its two products: with |a| large they are far
+			// bigger than the result (mix(x, x, 1e6) is x in one form and x +- a few units in the other)
+			if tol, ind := cancelTol(v1, 8, f(x)*(1-f(a)), f(y)*f(a), (f(y)-f(x))*f(a)); ind {
+				s.Ind = true
+			} else if tol > s.Tol {
+				s.Tol = tol
+			}
 			m := math.Max(math.Abs(f(x)), math.Abs(f(y)))
 			if !s.Ind && math.Abs(v1) < m*1e-3 {
 				s.Ind = true
